@@ -40,19 +40,21 @@ class QueryBase[T](ABC):
                 'cannot be instantiated directly.'
             )
 
-    def __post_init__(self):
-        # We maintain parallel lists of conditions and parameters to use to
-        # build the SQL for the query.
-        self._conditions = []
-        self._params = []
-
     @abstractmethod
     def to_sql(self) -> tuple[str, list]:
         """Generate the SQL query string and parameters."""
         ...
 
-    def _common_conditions(self):
-        """Add conditions common to all queries."""
+    def _common_conditions(self) -> tuple[list[str], list]:
+        """Generate conditions common to all queries.
+
+        Returns parallel lists of SQL conditions and parameters. These are
+        built afresh on every call, so that generating the SQL for a query
+        more than once always gives the same result.
+        """
+
+        conditions: list[str] = []
+        params: list = []
 
         if self.filter is not None:
             # Handle all filter conditions in one go here. The filter
@@ -60,23 +62,26 @@ class QueryBase[T](ABC):
             # main query.
             cond, p = self.filter.to_sql(table='f')
             if cond:
-                self._conditions.append(cond)
-                self._params.extend(p)
+                conditions.append(cond)
+                params.extend(p)
 
         if self.start_date is not None:
             # Midnight UTC of the given date.
-            self._conditions.append('s.departure_timestamp >= ?')
-            self._params.append(int(date_to_timestamp(self.start_date).timestamp()))
+            conditions.append('s.departure_timestamp >= ?')
+            params.append(int(date_to_timestamp(self.start_date).timestamp()))
         if self.end_date is not None:
             # Midnight UTC of the day following the given date.
-            self._conditions.append('s.departure_timestamp < ?')
-            self._params.append(
+            conditions.append('s.departure_timestamp < ?')
+            params.append(
                 int((date_to_timestamp(self.end_date) + timedelta(days=1)).timestamp())
             )
 
-    def _where_clause(self):
-        """Generate WHERE clause from accumulated conditions."""
-        return ' WHERE ' + ' AND '.join(self._conditions) if self._conditions else ''
+        return conditions, params
+
+    @staticmethod
+    def _where_clause(conditions: list[str]) -> str:
+        """Generate WHERE clause from a list of conditions."""
+        return ' WHERE ' + ' AND '.join(conditions) if conditions else ''
 
 
 @dataclass
@@ -187,26 +192,26 @@ class Query(QueryBase[QueryResult]):
             raise ValueError('offset cannot be used without a limit.')
 
         # Handle filter and date conditions.
-        self._common_conditions()
+        conditions, params = self._common_conditions()
 
         # Random sampling: generate a random number in (0, 1) based on the
         # specification of SQLite's random() function.
         if self.sample is not None:
-            self._conditions.append(
+            conditions.append(
                 '(random() + 9223372036854775808) / 18446744073709551615.0 < ?'
             )
-            self._params.append(self.sample)
+            params.append(self.sample)
 
         # Return flights only on every nth day.
         if self.every_nth is not None and self.every_nth > 1:
             if self.start_date is None:
-                self._conditions.append(
+                conditions.append(
                     '(s.day - (SELECT MIN(day) FROM schedules)) % ? = 0'
                 )
-                self._params.append(self.every_nth)
+                params.append(self.every_nth)
             else:
-                self._conditions.append('(s.day - ?) % ? = 0')
-                self._params += [
+                conditions.append('(s.day - ?) % ? = 0')
+                params += [
                     (self.start_date - date(1970, 1, 1)).days,
                     self.every_nth,
                 ]
@@ -222,7 +227,7 @@ class Query(QueryBase[QueryResult]):
             'JOIN flights f ON f.id = s.flight_id '
             'JOIN airports ao ON f.origin = ao.id '
             'JOIN airports ad ON f.destination = ad.id'
-            f'{self._where_clause()}'
+            f'{self._where_clause(conditions)}'
             ' ORDER BY s.departure_timestamp'
         )
 
@@ -231,7 +236,7 @@ class Query(QueryBase[QueryResult]):
             if self.offset is not None:
                 sql += f' OFFSET {self.offset}'
 
-        return sql, self._params
+        return sql, params
 
 
 @dataclass
@@ -272,7 +277,7 @@ class FrequentFlightQuery(QueryBase[FrequentFlightQueryResult]):
             raise ValueError('result limit must be greater than zero')
 
         # Handle filter and date conditions.
-        self._common_conditions()
+        conditions, params = self._common_conditions()
 
         sql = (
             'WITH '
@@ -280,7 +285,7 @@ class FrequentFlightQuery(QueryBase[FrequentFlightQueryResult]):
             'SELECT COUNT(s.id) AS nflights, f.od_pair AS od_pair '
             'FROM schedules s '
             'JOIN flights f ON s.flight_id = f.id'
-            f'{self._where_clause()}'
+            f'{self._where_clause(conditions)}'
             ' GROUP BY od_pair) '
             'SELECT substring(od_pair, 1, 3) AS airport1, '
             'substring(od_pair, 4) AS airport2, '
@@ -290,7 +295,7 @@ class FrequentFlightQuery(QueryBase[FrequentFlightQueryResult]):
             f'LIMIT {self.limit}'
         )
 
-        return sql, self._params
+        return sql, params
 
 
 @dataclass
@@ -306,20 +311,20 @@ class CountQuery(QueryBase[int]):
         """Generate the SQL query string and parameters."""
 
         # Handle filter and date conditions.
-        self._common_conditions()
+        conditions, params = self._common_conditions()
 
         # Build the SQL query, shortcutting the common case of no conditions to
         # count all flight instances.
         sql = 'SELECT COUNT(s.id) FROM schedules s'
-        if len(self._conditions) > 0:
+        if len(conditions) > 0:
             sql += (
                 ' JOIN flights f ON f.id = s.flight_id '
                 'JOIN airports ao ON f.origin = ao.id '
                 'JOIN airports ad ON f.destination = ad.id'
-                f'{self._where_clause()}'
+                f'{self._where_clause(conditions)}'
             )
 
-        return sql, self._params
+        return sql, params
 
 
 def date_to_timestamp(d: date) -> pd.Timestamp:
